@@ -579,6 +579,15 @@ def run(ctx):
     try:
         _run(ctx)
     except vlib.Inconclusive as ex:
+        if not (ctx.violations or ctx.known_hits) and not getattr(ctx, "replay", None) and not getattr(ctx, "selftest", False):
+            # e.g. the in-package harness no longer compiles against a refactored getMessages: the HTTP-level
+            # stage needs nothing but the public routes, so the property can still be judged on the real node
+            from checks import irc_http
+            ctx.note("in-package harness unusable (%s); judging by the HTTP-level stage alone" % str(ex)[:300])
+            try:
+                irc_http.report(ctx, "C04")
+            except vlib.Inconclusive:
+                pass
         if not (ctx.violations or ctx.known_hits):
             raise
         ctx.note("machinery problem after a violation was established: %s" % str(ex)[:600])
@@ -844,3 +853,8 @@ def _run(ctx):
         from checks import irc_common
         irc_common.attach(ctx, "C04")
         ctx.assumptions.append("reply numbering of the real state machine checked by the IRC-layer engine (irc_common.attach)")
+        # The handler itself (per-session filter, lastseen parsing, superseding) runs in the HTTP-level stage:
+        # real long polls of a complete single-node network, cancelled and resumed with lastseen, validated by
+        # TLC against the recipient sets (StreamIsEntitledReplies: in order, exactly once across resumes).
+        from checks import irc_http
+        irc_http.report(ctx, "C04")
